@@ -184,8 +184,12 @@ RestartEq == refSet =>
       /\ \A g \in DOMAIN saved : g \in DOMAIN ref /\ saved[g] = ref[g]
       /\ (pc = "idle" /\ returned # {}) => ((start + it) \in DOMAIN ref /\ returned = ref[start + it])
 
-InvTable == [ TypeOK |-> TypeOK, NoError |-> NoError, WeightOne |-> WeightOne, NoEquivDup |-> NoEquivDup,
-              OrbitWeight |-> OrbitWeight, DistinctStoragePaths |-> DistinctStoragePaths, Tiling |-> Tiling, IntegralConsistent |-> IntegralConsistent,
+(* the invariants about the K list alone (points, levels, weights) are evaluated in the states where the list was
+   (re)built; the other events do not touch these fields *)
+ListChanged == act.name \in {"StartFresh", "StartRestart", "Refine"}
+InvTable == [ TypeOK |-> TypeOK, NoError |-> NoError, WeightOne |-> WeightOne, NoEquivDup |-> (ListChanged => NoEquivDup),
+              OrbitWeight |-> (ListChanged => OrbitWeight), DistinctStoragePaths |-> DistinctStoragePaths,
+              Tiling |-> (ListChanged => Tiling), IntegralConsistent |-> IntegralConsistent,
               SavedWeightOne |-> SavedWeightOne, ReturnedWeightOne |-> ReturnedWeightOne,
               CollectedOnce |-> CollectedOnce, AllCollected |-> AllCollected, RestartEq |-> RestartEq ]
 (* always TRUE; reports *)
